@@ -1,4 +1,4 @@
-CONSTANTS Lvl <- DefaultLvl MaxOps = 3 MaxDepth = 2 MaxTotal = 3
+CONSTANTS Lvl <- DefaultLvl MaxOps = 3 MaxDepth = 2 Reps <- AllOps MaxTotal = 3
 INIT Init
 NEXT Next
 CHECK_DEADLOCK FALSE
